@@ -6,13 +6,15 @@ python3 - <<'PY'
 import sys
 sys.path.insert(0, 'tools')
 import vlib, glob, os
-ok, log = vlib.coq_build()
+props = open('tools/integrated.txt').read().split()
+ok, log = vlib.coq_build(['props/%s.vo' % p for p in props])
 print(log[-3000:])
 if not ok:
     sys.exit(1)
-for d in sorted(glob.glob('harness/cmd/*')):
-    name = os.path.basename(d)
-    tags = 'verif'
+for p in props:
+    name = p.lower()
+    if not os.path.isdir('harness/cmd/' + name):
+        continue
     ok, log, _ = vlib.go_build(name)
     print(name, 'ok' if ok else 'FAILED')
     if not ok:
